@@ -95,7 +95,7 @@ def copy_protocol_is_deep(chk, rule: str) -> None:
     n = 0
     for c in chk.prog.all_classes():
         for name in ('__deepcopy__', '__reduce__', '__reduce_ex__'):
-            f = c.methods.get(name)
+            f = c.vmethods.get(name)
             if f is None:
                 continue
             init = c.lookup('__init__')
